@@ -12,6 +12,11 @@ sys.path.insert(0, os.path.dirname(os.path.dirname(os.path.abspath(__file__))))
 
 from vf import common
 
+# kill -USR1 <pid> prints every thread's stack (for finding out where a slow run waits)
+import faulthandler
+import signal
+faulthandler.register(signal.SIGUSR1, all_threads = True)
+
 
 def setup():
 	ok = True
